@@ -59,7 +59,8 @@ impl InstanceAnnotations {
 
     pub fn authors(&self) -> Result<impl Iterator<Item = &str>> {
         let authors = self.get("org.ommx.v1.instance.authors")?;
-        Ok(authors.split(','))
+        // An empty list is stored as an empty string, which `split` would turn into one empty name
+        Ok(authors.split(',').skip(usize::from(authors.is_empty())))
     }
 
     pub fn set_license(&mut self, license: String) {
@@ -165,7 +166,8 @@ impl ParametricInstanceAnnotations {
 
     pub fn authors(&self) -> Result<impl Iterator<Item = &str>> {
         let authors = self.get("org.ommx.v1.parametric-instance.authors")?;
-        Ok(authors.split(','))
+        // An empty list is stored as an empty string, which `split` would turn into one empty name
+        Ok(authors.split(',').skip(usize::from(authors.is_empty())))
     }
 
     pub fn set_license(&mut self, license: String) {
